@@ -528,7 +528,10 @@ func (w *World) lsOp(rc *Recorder, op string) error {
 	defer cancel()
 	switch op {
 	case "S":
-		w.observeSync(rc, func() error { return w.ldb.Sync(ctx) })
+		_ = w.ldb.Sync(ctx)
+		return nil
+	case "S1": // one verify+sync round, observed for the model
+		w.observeSync(rc, func() error { _, err := w.ldb.VerifSyncStep(ctx, w.cfg.MaxSyncWALBytes); return err })
 		return nil
 	case "RS":
 		err := w.ldb.Replica.Sync(ctx)
@@ -573,7 +576,13 @@ type l0obs struct {
 	salt2     uint32
 	commit    uint32
 	pgnos     []uint32
+	digests   []uint64
 	minTXID   uint64
+}
+
+func digest(b []byte) uint64 {
+	h := sha256.Sum256(b)
+	return binary.BigEndian.Uint64(h[:8]) >> 16
 }
 
 func readL0(path string) (*l0obs, error) {
@@ -597,6 +606,7 @@ func readL0(path string) (*l0obs, error) {
 			return nil, err
 		}
 		o.pgnos = append(o.pgnos, ph.Pgno)
+		o.digests = append(o.digests, digest(buf))
 	}
 	return o, nil
 }
@@ -614,44 +624,67 @@ func (w *World) localL0() []uint64 {
 	return out
 }
 
-// observeSync records, for the model: the WAL bytes and database size before a
-// Sync call, the previous L0 header, and the first L0 file the call produced.
+// observeSync records, for the model (Db layer): everything verify+sync read
+// before a Sync call — page size, byte budget, database size, position, the
+// previous L0 header with page digests, the in-memory cursor flag, the WAL
+// bytes, the digest of the frame just before the cursor — and the first L0 file
+// the call produced (or none).
 func (w *World) observeSync(rc *Recorder, f func() error) {
+	ps := w.ldb.PageSize()
+	if ps == 0 { // not initialised yet: init() runs inside the call, nothing to observe before it
+		_ = f()
+		rc.steps++
+		return
+	}
 	before := w.localL0()
 	var prev *l0obs
+	var pos uint64
 	if len(before) > 0 {
-		t := before[len(before)-1]
-		prev, _ = readL0(w.ldb.LTXPath(0, ltx.TXID(t), ltx.TXID(t)))
+		pos = before[len(before)-1]
+		prev, _ = readL0(w.ldb.LTXPath(0, ltx.TXID(pos), ltx.TXID(pos)))
+		if prev == nil {
+			_ = f()
+			return
+		}
 	}
-	wal, _ := os.ReadFile(w.dbPath + "-wal")
+	wal, werr := os.ReadFile(w.dbPath + "-wal")
 	var dbPages int64
 	if fi, err := os.Stat(w.dbPath); err == nil {
-		dbPages = fi.Size() / int64(w.cfg.PageSize)
+		dbPages = fi.Size() / int64(ps)
 	}
 	st := w.ldb.VerifSyncState()
 	err := f()
 	after := w.localL0()
 	rc.steps++
-	if w.ldb.PageSize() == 0 || err != nil {
-		return
-	}
+	next := pos + 1
 	var first *l0obs
-	if len(after) > len(before) || (len(after) > 0 && len(before) > 0 && after[len(after)-1] > before[len(before)-1]) {
-		var next uint64 = 1
-		if len(before) > 0 {
-			next = before[len(before)-1] + 1
+	for _, t := range after {
+		if t == next {
+			first, _ = readL0(w.ldb.LTXPath(0, ltx.TXID(next), ltx.TXID(next)))
 		}
-		first, _ = readL0(w.ldb.LTXPath(0, ltx.TXID(next), ltx.TXID(next)))
 	}
-	// input: [ps; maxSyncWALBytes; dbPages; pos; prev(hdr); syncState; wal]
-	prevSx := L()
-	var pos uint64
+	if err != nil && first == nil {
+		return // an error of a later stage (checkpoint) or of the environment: not a statement about verify+sync
+	}
+	if len(wal) < 32 {
+		return // ensureWALExists writes to the WAL inside the call before verify reads it
+	}
+	prevSx := L(I(0), I(0), I(0), I(0), I(0), L())
+	fdigP, fdig := false, uint64(0)
 	if prev != nil {
-		pos = prev.txid
-		prevSx = L(I(prev.walOffset), I(prev.walSize), U(uint64(prev.salt1)), U(uint64(prev.salt2)), U(uint64(prev.commit)))
+		pd := make(SxList, 0, len(prev.pgnos))
+		for i, p := range prev.pgnos {
+			pd = append(pd, L(U(uint64(p)), U(prev.digests[i])))
+		}
+		prevSx = L(I(prev.walOffset), I(prev.walSize), U(uint64(prev.salt1)), U(uint64(prev.salt2)), U(uint64(prev.commit)), pd)
+		end := prev.walOffset + prev.walSize
+		fs := int64(ps + 24)
+		if end-fs >= 32 && end <= int64(len(wal)) {
+			fdigP, fdig = true, digest(wal[end-fs+24:end])
+		}
 	}
-	in := L(I(int64(w.cfg.PageSize)), I(w.cfg.MaxSyncWALBytes), I(dbPages), U(pos), prevSx,
-		L(B(st.SyncedToWALEnd), I(st.LastSyncedWALOffset)), SxBytes(wal))
+	in := L(I(int64(ps)), I(w.cfg.MaxSyncWALBytes), I(dbPages), U(pos), prevSx,
+		B(st.SyncedToWALEnd), B(werr == nil), SxBytes(wal), B(fdigP), U(fdig))
 	obs := L(I(0))
 	if first != nil {
 		pg := make(SxList, 0, len(first.pgnos))
@@ -660,22 +693,20 @@ func (w *World) observeSync(rc *Recorder, f func() error) {
 		}
 		obs = L(I(1), I(first.walOffset), I(first.walSize), U(uint64(first.salt1)), U(uint64(first.salt2)), U(uint64(first.commit)), pg)
 	}
-	_ = in
-	_ = obs
-	if w.lastPageMatchObservable(prev) {
-		rc.cw.Add("db_sync_step", in, obs, "sync-step", first != nil)
+	cls := "sync-step/none"
+	if first != nil {
+		cls = "sync-step/incremental"
+		if len(first.pgnos) > 0 && first.walOffset == 32 && uint32(len(first.pgnos)) >= first.commit-1 {
+			cls = "sync-step/full"
+		}
 	}
+	rc.cw.Add("db_sync_step", in, obs, cls, first != nil)
 }
-
-// lastPageMatchObservable: the model needs the pages of the previous L0 file to
-// evaluate lastPageMatch; they are supplied separately only when small. For now
-// steps whose verify reaches lastPageMatch are compared through the oracle only.
-func (w *World) lastPageMatchObservable(prev *l0obs) bool { return false }
 
 // ---- history generation ----------------------------------------------------------------------------------------
 
 var appOps = []string{"W", "W", "W", "W", "U", "U", "D", "V", "DDL", "RB", "ACK-PASSIVE", "ACK-FULL", "ACK-RESTART", "ACK-TRUNCATE", "AOC", "LR+", "LR-"}
-var lsOps = []string{"S", "S", "S", "RS", "SW", "SW", "SW", "CK-PASSIVE", "CK-FULL", "CK-RESTART", "CK-TRUNCATE", "SNAP", "CMP"}
+var lsOps = []string{"S", "S1", "S1", "S1", "RS", "SW", "SW", "SW", "CK-PASSIVE", "CK-FULL", "CK-RESTART", "CK-TRUNCATE", "SNAP", "CMP"}
 
 func (w *World) step(rc *Recorder, op string) {
 	w.trace = append(w.trace, op)
